@@ -86,7 +86,7 @@ class DialectOb(StmtOb):
         names = self.names()
         validity_assumptions(self.st, self.val(names))
         base = dump_runner(self.script.runner(names))
-        bad, finding = None, None
+        bads = []
         for d, sc in self.others.items():
             try:
                 other = dump_runner(sc.runner(names))
@@ -94,15 +94,18 @@ class DialectOb(StmtOb):
                 from sqllineage.exceptions import SQLLineageException
 
                 if isinstance(e, SQLLineageException):
-                    bad = (d, None)
+                    f = None
                     if d == "impala" and self.st.kind == "ctas" and type(e).__name__ == "UnsupportedStatementException":
-                        finding = "C09-impala-create-table-as-select-unsupported"
-                    break
+                        f = "C09-impala-create-table-as-select-unsupported"
+                    bads.append((d, None, f))
+                    continue
                 raise
             if not self.compare(base, other):
-                bad = (d, other)
-                finding = self.region(d, names, base, other)
-                break
+                bads.append((d, other, self.region(d, names, base, other)))
+        # a disagreement outside every recorded finding is reported first; a recorded one must not mask it
+        bads.sort(key=lambda x: x[2] is not None)
+        bad = (bads[0][0], bads[0][1]) if bads else None
+        finding = bads[0][2] if bads else None
         return Verdict(bad is None, {"names": names, "lifted": base, "expected": bad[1] if bad and bad[1] is not None else base,
                                      "extra": {"dialect": bad[0] if bad else None, "accepted": list(self.others), "rejected": self.rejected}},
                        finding)
@@ -194,6 +197,13 @@ def obligations(tier, seed):
             # one dialect of each grammar family, so that a family-wide tree shape is met by every statement
             ds = [rnd.choice(FAMILIES[0]), rnd.choice(FAMILIES[1]), rnd.choice(FAMILIES[2]), rnd.choice(FAMILIES[3])]
             obs.append(DialectOb(k, st, ds, 4, seed))
+        # every statement kind x query form over the two simplest FROM shapes meets EVERY dialect (a form-specific tree shape
+        # of one grammar family, e.g. a parenthesised CTAS query under the postgres family, is then certainly met)
+        for k, st in tpl:
+            parts = k.split("/")
+            if len(parts) >= 3 and parts[1] in ("single", "join_on") and k not in seen:
+                seen.add(k)
+                obs.append(DialectOb(k, st, ALL_DIALECTS, 2, seed))
         lsub = [x for x in tpl if "/plain" in x[0] and x[0].startswith(("insert/", "bare/"))] + rnd.sample(tpl, len(tpl) // 5)
         seen = set()
         for k, st in lsub:
